@@ -411,6 +411,62 @@ func genPluginSeq(r *prng.R, maxReqs int) []string {
 	return ops
 }
 
+// genPluginReload: the same remedy NAME used with a changed strategy after its queue has been used
+// (quota raised, quota lowered, window size changed — a policy reload), or two same-named remedies with
+// different strategies interleaved.  One queue per FULL QueueKey: each strategy has its own quota/window.
+func genPluginReload(r *prng.R, maxReqs int) []string {
+	q1, w1 := r.Range(1, 3), prng.Pick(r, []int{1, 2})
+	size, ttl := r.Range(1, 4), r.Range(1, 4)
+	ops := []string{fmt.Sprintf("pcfg quota=%d winsec=%d size=%d ttlsec=%d t0=%d", q1, w1, size, ttl,
+		int64(r.Range(1, 100000))*1_000_000_000+500_000_000)}
+	q2, w2 := q1, w1
+	switch r.Intn(4) {
+	case 0:
+		q2 = q1 + r.Range(1, 2) // quota raised
+	case 1:
+		if q1 > 1 {
+			q2 = q1 - 1 // quota lowered
+		} else {
+			q1, q2 = 2, 1
+			ops[0] = fmt.Sprintf("pcfg quota=%d winsec=%d size=%d ttlsec=%d t0=%d", q1, w1, size, ttl,
+				int64(r.Range(1, 100000))*1_000_000_000+500_000_000)
+		}
+	case 2:
+		w2 = w1 + r.Range(1, 2) // window size changed
+	default:
+		q2, w2 = q1+1, w1+1
+	}
+	interleave := r.Chance(35)
+	names := r.Range(1, 2)
+	id := 0
+	strat := func(second bool) string {
+		if second {
+			return fmt.Sprintf(" q=%d w=%d", q2, w2)
+		}
+		if r.Bool() {
+			return fmt.Sprintf(" q=%d w=%d", q1, w1) // explicit but equal to the default: same key
+		}
+		return ""
+	}
+	half := maxReqs / 2
+	for id < maxReqs {
+		for b := r.Range(1, 4); b > 0 && id < maxReqs; b-- {
+			second := id >= half
+			if interleave {
+				second = r.Bool()
+			}
+			ops = append(ops, "ptick d=1000000")
+			ops = append(ops, fmt.Sprintf("preq id=%d key=%d p=%d%s", id, r.Intn(names), r.Intn(2), strat(second)))
+			id++
+		}
+		for t := r.Range(0, 2); t > 0; t-- {
+			ops = append(ops, fmt.Sprintf("ptick d=%d", int64(r.Range(1, 2))*1_000_000_000))
+		}
+	}
+	ops = append(ops, fmt.Sprintf("ptick d=%d", int64(ttl+3)*1_000_000_000))
+	return ops
+}
+
 func gen(r *prng.R, f proto.Flags, emit func(proto.Case)) {
 	n, maxReqs, maxOps := 3000, 9, 50
 	if f.Tier == "thorough" {
@@ -434,6 +490,10 @@ func gen(r *prng.R, f proto.Flags, emit func(proto.Case)) {
 	for k := 0; k < ns*f.Budget; k++ {
 		rr := r.Fork()
 		emit(proto.Case{ID: fmt.Sprintf("ps%d", k), Ops: genPluginSeq(rr, rr.Range(2, 14))})
+	}
+	for k := 0; k < ns*f.Budget; k++ {
+		rr := r.Fork()
+		emit(proto.Case{ID: fmt.Sprintf("pr%d", k), Ops: genPluginReload(rr, rr.Range(4, 14))})
 	}
 	if f.Tier == "thorough" {
 		enumerate("x", 1, 9, 3, emit)
